@@ -1855,7 +1855,10 @@ class Evaluator:
                     out_ = s.mkcond(s.compare(ast.Eq(), args[0], k_.v), v_, out_)
                 return out_
             if attr == 'get':
-                r = s.getitem(recv, args[0])
+                # .get never raises: a decidable miss is the default, whatever the lookup-error policy of the evaluation
+                saved_ = s.raise_lookup_errors; s.raise_lookup_errors = False
+                try: r = s.getitem(recv, args[0])
+                finally: s.raise_lookup_errors = saved_
                 if isinstance(r, Opq) and r.k[0] == 'KeyError': return args[1] if len(args) > 1 else None
                 if isinstance(r, Opq) and r.k[0] == 'dispatch':
                     # symbolic key: the entry when the key is present, the default otherwise
